@@ -539,7 +539,7 @@ def run(ck):
     rng = random.Random(ck.seed)
     ck.ensure_targets("mfront", "mfront-query", "TFELSystem")
     gloss = glossary_bounds()
-    nb_text, nb_lib, nm = (8, 2, 5) if ck.quick else (60, 30, 24)
+    nb_text, nb_lib, nm = (8, 1, 5) if ck.quick else (40, 14, 16)
     progs = []
     for i in range(nb_text):
         progs.append(rand_behaviour(rng, i, gloss, "short" if i % 3 else "long", force="array-bounds" if i == 0 else None))
@@ -607,6 +607,7 @@ def run(ck):
         if b.name not in emitted_tables:
             emitted_tables[b.name] = parse_symbols(open(src).read())
         em = emitted_tables[b.name]
+        blk = b.block(h)
         symvar = {}
         for gk in ("mps", "isvs", "esvs", "pars", "hidden"):
             for v in blk[gk]:
@@ -836,7 +837,7 @@ def run(ck):
                      {"query": lines[i], "model": model, "declared": expect[i]})
 
     # ---- (iii) mfront-query
-    for b in progs[:max(nb_lib, 4)]:
+    for b in progs[:max(nb_lib, 3)]:
         mfront_query_behaviour(ck, b, gendir, note, hist, stats)
     for m in mps[:4]:
         mfront_query_matprop(ck, m, gendir, note, hist, stats)
@@ -1057,7 +1058,7 @@ def mfront_query_behaviour(ck, b, gendir, note, hist, stats):
                     cls = which[0].split("=")[0].strip("-") if which else "failure"
                     if which and cls in ("bounds-value", "physical-bounds-value", "parameter-default-value") and close_to(which[1], which[2]):
                         cls = "display-precision"
-                    note("mfront-query:%s" % cls, "viol",
+                    note("mfront-query/src/QueryUtilities.cxx:display-precision" if cls == "display-precision" else "mfront-query:%s" % cls, "viol",
                          "mfront-query %s on %s prints `%s`, declared `%s`" % (which[0], fname, which[1], which[2]) if which else
                          "mfront-query %s on %s fails (exit %s)" % (" ".join(opts), fname, rc),
                          {"behaviour": b.name, "hypothesis": h, "variable": v.ext, "mfront_file": b.text, "stdout": lines, "stderr": err[-500:]})
@@ -1078,7 +1079,7 @@ def mfront_query_matprop(ck, m, gendir, note, hist, stats):
         stats["mq"] = stats.get("mq", 0) + 1
         hist["mfront-query:mp-default"] = hist.get("mfront-query:mp-default", 0) + 1
         if rc != 0 or len(lines) != 1 or not num_equal(lines[0], p.dflt[0]):
-            note("mfront-query:display-precision" if (lines and close_to(lines[0], p.dflt[0])) else "mfront-query:mp:parameter-default-value", "viol",
+            note("mfront-query/src/QueryUtilities.cxx:display-precision" if (lines and close_to(lines[0], p.dflt[0])) else "mfront-query:mp:parameter-default-value", "viol",
                  "mfront-query --parameter-default-value=%s on %s prints `%s`, declared `%s`" % (p.ext, fname, lines[0] if lines else "", p.dflt[0]),
                  {"material_property": m.name, "variable": p.ext, "mfront_file": m.text, "stdout": lines, "stderr": err[-500:]})
     for v in m.inputs + [m.output]:
@@ -1103,7 +1104,7 @@ def mfront_query_matprop(ck, m, gendir, note, hist, stats):
         if bad:
             cls = which[0].split("=")[0].strip("-") if which else "failure"
             if which and cls.endswith("bounds-value") and close_to(which[1], which[2]):
-                key = "mfront-query:display-precision"
+                key = "mfront-query/src/QueryUtilities.cxx:display-precision"
             elif cls in ("has-bounds", "bounds-type", "bounds-value") or (cls == "failure" and v.bounds and not v.eff_phys()):
                 key = "mfront-query/src/MaterialPropertyQuery.cxx:bounds-queries-read-the-physical-bounds"
             else:
